@@ -120,6 +120,56 @@ w('//@   requires [colmajor_same_transposition] (%s.AP.o & ColMajor) != DataOrde
 w('//@   requires [intent] gh("want_left", %s.Raw.arr) == %s.Raw.arr && gh("want_right", %s.Raw.arr) == %s.Raw.arr' % (C, A, C, B))
 w("//@   config frame any")
 w("")
+# ---- Inner: dot(n, x, incX, y, incY) ----
+w("""// the inner product hands (n, x, 1, y, 1) to BLAS dot: that addresses the operands' logical vectors only when both are
+// contiguous vectors of one length (strided vector views are read from the wrong storage positions: observed,
+// stated as precondition [contiguous])
+//@ func tensor.StdEng.checkTwoFloatComplexTensors
+//@   trusted
+//@   ensures [same] err == nil ==> ad.val == a.val && bd.val == b.val && typeis(ad, "*tensor.Dense") && typeis(bd, "*tensor.Dense")
+//@   ensures [types] err == nil ==> asptr("tensor.Dense", a).t == asptr("tensor.Dense", b).t
+//@   assigns nothing
+""")
+for P, T in TY:
+    dn = {"S": "Sdot", "D": "Ddot", "C": "Cdotu", "Z": "Zdotu"}[P]
+    w("//@ func tensor.BLAS.%s" % dn)
+    w("//@   trusted")
+    w("//@   params impl n x incX y incY")
+    w("//@   requires [dims] n >= 0 && incX != 0 && incY != 0")
+    w("//@   requires [len] n > 0 ==> len(x) > (n - 1) * incX && len(y) > (n - 1) * incY")
+    w('//@   requires [x_layout] incX == gh("vec_s", x.arr) && gh("vec_len", x.arr) == n')
+    w('//@   requires [y_layout] incY == gh("vec_s", y.arr) && gh("vec_len", y.arr) == n')
+    w("//@   assigns nothing")
+    w("")
+w("//@ func tensor.StdEng.Inner")
+w("//@   props C09")
+w('//@   config devirt tensor.Tensor=*tensor.Dense,tensor.DenseTensor=*tensor.Dense')
+w('//@   requires [dyn] typeis(a, "*tensor.Dense") && typeis(b, "*tensor.Dense") && a.val != 0 && b.val != 0')
+w('//@   requires [kind] ' + FLOATK)
+w('//@   requires [ranks] len(%s.shape) == 1 && len(%s.strides) == 1 && len(%s.shape) == 1 && len(%s.strides) == 1' % (A, A, B, B))
+w('//@   requires [shapes] %s.shape[0] >= 1 && %s.shape[0] == %s.shape[0]' % (A, A, B))
+w('//@   requires [ghost_x] ' + ghost_vec(A))
+w('//@   requires [ghost_y] ' + ghost_vec(B))
+w('//@   requires [contiguous] %s.strides[0] == 1 && %s.strides[0] == 1' % (A, B))
+for _, T in TY:
+    w('//@   requires [storage_%s] %s.t.Type == rtype("%s") ==> len(tview("%s", %s)) == %s.shape[0] && len(tview("%s", %s)) >= %s.shape[0]' % (T, A, T, T, A, A, T, B, B))
+w("//@   config frame any")
+w("")
+# the float32/float64-specialised engines' Inner (C20): the same parameter mapping, on the typed views directly
+for W, T in (("64", "float64"), ("32", "float32")):
+    w("//@ func tensor.Float%sEngine.Inner" % W)
+    w("//@   props C20 C09")
+    w('//@   requires [dyn] typeis(a, "*tensor.Dense") && typeis(b, "*tensor.Dense") && a.val != 0 && b.val != 0')
+    w('//@   requires [kind] %s.t.Type == rtype("%s") && %s.t.Type == rtype("%s")' % (A, T, B, T))
+    w('//@   requires [ranks] len(%s.shape) == 1 && len(%s.strides) == 1 && len(%s.shape) == 1 && len(%s.strides) == 1' % (A, A, B, B))
+    w('//@   requires [shapes] %s.shape[0] >= 1 && %s.shape[0] == %s.shape[0]' % (A, A, B))
+    w('//@   requires [ghost_x] ' + ghost_vec(A))
+    w('//@   requires [ghost_y] ' + ghost_vec(B))
+    w('//@   requires [contiguous] %s.strides[0] == 1 && %s.strides[0] == 1' % (A, B))
+    w('//@   requires [storage] len(tview("%s", %s)) == %s.shape[0] && len(tview("%s", %s)) >= %s.shape[0]' % (T, A, A, T, B, B))
+    w('//@   ensures [ok] err == nil')
+    w("//@   config frame any")
+    w("")
 hdr = """//go:build verif
 
 package tensor
